@@ -11,5 +11,6 @@ WrappedAsCoded == [parse |-> [disk |-> TRUE, memory |-> TRUE],
                    preprocess |-> [disk |-> TRUE, memory |-> TRUE],    \* Modules.load (since the repair)
                    nodeapi |-> [disk |-> TRUE, memory |-> TRUE],       \* Procedure.__exec_impl (since the repair)
                    handler |-> [disk |-> TRUE, memory |-> TRUE]]
+ReportsSyntax == [disk |-> "Syntax", memory |-> "Syntax"]
 WrappedAll == [s \in {"parse", "deps", "preprocess", "nodeapi", "handler"} |-> [m \in {"disk", "memory"} |-> TRUE]]
 =============================================================================
